@@ -211,9 +211,11 @@ def run(ctx):
                 continue
             seq_terms.append(t)
             seq_meta.append((gi, steps))
-    ctx.sample(dict(game=gen_games.FIG55, steps=[[True, False], [False, False]],
-                    impl=[core(r) for (gi, kind, x), r in zip(where, res)
-                          if gi == 0 and kind == "same" and x == [[True, False], [False, False]]][:1]))
+    for (gi, kind, x), r in zip(where, res):
+        if gi == 0 and kind == "same" and x == [[True, False], [False, False]]:
+            ctx.sample(dict(game=str(games[0][0]), steps=x,
+                            impl=[dict(intact=rk.get("intact"), result=str(dec(rk["ok"]))[:300] if "ok" in rk else rk)
+                                  for rk in r.get("steps", [])]))
     body = lambda l: ("Definition cases : list solve_case := %s.\n"
                       "Eval vm_compute in (run_solve_cases cmp_all cases).") % l
     bad, errs = coqrun.eval_case_files("c10", HDR, coqrun.chunked(solve_terms, 30), body)
